@@ -820,7 +820,9 @@ void run_dm(const Case& c, Result& r)
         double rq = z.dot(K * z) / zz;
         rho.push_back(rq);
         res = std::max(res, (K * z - rq * z).norm() / std::sqrt(zz));
-        scaledev = std::max(scaledev, std::fabs(std::sqrt(zz) - std::pow(std::fabs(rq), t)) / std::max(1e-300, std::pow(std::fabs(rq), t)));
+        // relative to lambda^t, except for eigenvalues that are zero up to rounding (rank-deficient kernel, e.g. exact duplicate
+        // samples): there both sides are powers of rounding noise and only their smallness is meaningful
+        scaledev = std::max(scaledev, std::fabs(std::sqrt(zz) - std::pow(std::fabs(rq), t)) / std::max(std::pow(1e-9, t), std::pow(std::fabs(rq), t)));
     }
     std::sort(rho.begin(), rho.end(), std::greater<double>());
     double ed = 0;
